@@ -182,7 +182,8 @@ def run_job(job) -> report.JobResult:
                         if SBytes(p.content).find(delim) != -1:
                             raise Engine.cur._raise(Pruned())
                     chunks = [C.mk_chunk(c) for c in C.split(body, cuts, empty)]
-                    got = C.run_entry(entry, chunks, boundary, limits={"max_form_parts": SInt(lim_parts), "max_form_memory_size": SInt(lim_mem)} if limited else None)
+                    got = C.run_entry(entry, chunks, boundary, limits={"max_form_parts": SInt(lim_parts), "max_form_memory_size": SInt(lim_mem)} if limited else None,
+                                      **({"factory": C.LenSink} if job.get("sink") == "len" else {}))
                     # field text is the UTF-8 decoding of the field's bytes (symbolic bytes of fields are ASCII, fixed fragments may be multi-byte)
                     exp_now = []
                     for x in exp:
@@ -208,13 +209,13 @@ def run_job(job) -> report.JobResult:
                     cbody = bytes(conc(body, m))
                     climits = {"max_form_parts": m.eval(lim_parts, True).as_long(), "max_form_memory_size": m.eval(lim_mem, True).as_long()} if limited else None
                     with shims.off():
-                        real = C.run_concrete(entry, cbody, cuts, boundary, empty, limits=climits)
+                        real = C.run_concrete(entry, cbody, cuts, boundary, empty, limits=climits, factory=C.LenSink if job.get("sink") == "len" else None)
                     cexp = concrete_expected(parts, m, raw=(entry == "decoder"))
                     if klass is not None:
                         reproduced = (real != cexp) or twin
                         res.violation(f"C01/{entry}/{klass.split(':')[0]}",
                                       {"body_hex": cbody.hex(), "cuts": cuts, "empty_chunks": empty, "boundary": boundary.decode("latin-1"),
-                                       "entry": entry, "expected": repr(cexp), "limits": climits},
+                                       "entry": entry, "expected": repr(cexp), "limits": climits, "sink": job.get("sink")},
                                       f"{klass}; real result {real!r}"[:600], reproduced)
                         return
                     res.kind("decoded")
@@ -286,6 +287,10 @@ def jobs(tier: str):
     for tag, eq in (("blank-before-equals", b" ="), ("blanks-around-equals", b" = ")):
         out.append(dict(name=f"field1+file1/b0/plain/{tag}", tmpl=[("field", 1, b"", b""), ("file", 1, b"", b"")], boundary=0, variant=0,
                         entries=["decoder", "parse_stream", "parse_async_stream", "wsgi_form", "asgi_form"], cutmode="cut1", empties=False, eq=eq, weight=30))
+    # file_factory is a caller-supplied hook: a sink class whose instances are falsy while empty (defines __len__) is a file all the same
+    for label, tmpl in (("field1+file1+field1", [("field", 1, b"", b""), ("file", 1, b"", b""), ("field", 1, b"", b"")]), ("file0+file2", [("file", 0, b"", b""), ("file", 2, b"", b"")])):
+        out.append(dict(name=f"{label}/b0/plain/sink-falsy-while-empty", tmpl=tmpl, boundary=0, variant=0, entries=["parse_stream", "parse_async_stream"],
+                        cutmode="cut1", empties=False, sink="len", weight=40))
     out.append(dict(name="twin/file1", tmpl=[("file", 1, b"", b"")], boundary=0, variant=0, entries=["decoder", "wsgi_form"],
                     cutmode="whole", twin=True))
     return out
@@ -294,6 +299,6 @@ def jobs(tier: str):
 def replay(rec) -> int:
     w = rec["witness"]
     body = bytes.fromhex(w["body_hex"])
-    real = C.run_concrete(w["entry"], body, w["cuts"], w["boundary"].encode("latin-1"), w.get("empty_chunks", False), limits=w.get("limits"))
+    real = C.run_concrete(w["entry"], body, w["cuts"], w["boundary"].encode("latin-1"), w.get("empty_chunks", False), limits=w.get("limits"), factory=C.LenSink if w.get("sink") == "len" else None)
     print(f"replay C01: entry={w['entry']} cuts={w['cuts']} body={body!r}\n  real     = {real!r}\n  expected = {w['expected']}")
     return 1 if repr(real) != w["expected"] else 0
